@@ -18,29 +18,41 @@ DEP_ENUM = {"civil": Depression.CIVIL, "nautical": Depression.NAUTICAL,
 
 
 class FrozenClock:
-    """freeze `now`/`today` as the sun and moon modules see them"""
+    """freeze the clock *below* astral.now()/today(): the name `datetime` inside astral/__init__.py
+    is replaced by a shim whose `datetime.now()` returns the frozen instant, so the real now() and
+    today() run (and any state they keep is exercised)"""
 
     def __init__(self, now_utc):
         self.now_utc = now_utc
-        self.saved = []
-
-    def _now(self, tz=None):
-        return self.now_utc if tz is None else self.now_utc.astimezone(tz)
-
-    def _today(self, tz=None):
-        return self._now(tz).date()
+        self.saved = None
 
     def __enter__(self):
-        for mod in (sun, moon, astral):
-            for name, f in (("now", self._now), ("today", self._today)):
-                if hasattr(mod, name):
-                    self.saved.append((mod, name, getattr(mod, name)))
-                    setattr(mod, name, f)
+        import types
+        frozen = self.now_utc
+
+        class _FrozenDT(datetime.datetime):
+            @classmethod
+            def now(cls, tz=None):
+                return frozen.astimezone(tz) if tz is not None else frozen.replace(tzinfo=None)
+
+            @classmethod
+            def utcnow(cls):
+                return frozen.replace(tzinfo=None)
+
+            @classmethod
+            def today(cls):
+                return frozen.replace(tzinfo=None)
+        shim = types.ModuleType("datetime")
+        for k in dir(datetime):
+            if not k.startswith("__"):
+                setattr(shim, k, getattr(datetime, k))
+        shim.datetime = _FrozenDT
+        self.saved = astral.datetime
+        astral.datetime = shim
         return self
 
     def __exit__(self, *exc):
-        for mod, name, orig in self.saved:
-            setattr(mod, name, orig)
+        astral.datetime = self.saved
         return False
 
 
@@ -52,11 +64,15 @@ def inst_off(v, want_tz):
 
 
 def gen_norm(rng, n, tier="quick"):
+    prev = None
     for i in range(n):
         d = gens.rand_date(rng, wide=False)
         z = zones.rand_zone(rng, d)
         if rng.random() < 0.5 and not z.iana:
             z = zones.iana(rng.choice(zones.IANA_NAMES))
+        if prev is not None and rng.random() < 0.3:
+            d, z = prev        # same UTC day, same zone, another clock reading: stale "today"
+        prev = (d, z)
         o = gens.rand_observer(rng, tuples=False)
         # the frozen clock: often an instant at which the zone's date differs from the UTC date
         hh = rng.choice([0, 1, 11, 12, 13, 22, 23, rng.randint(0, 23)])
